@@ -1255,6 +1255,8 @@ class ABCPropertyGraph(ABCPropertyGraphConstants):
         assert parent_node_id is not None
 
         props = self.component_sliver_to_graph_properties_dict(component)
+        # the parent must exist before anything is written
+        self.get_node_properties(node_id=parent_node_id)
         self.add_node(node_id=component.node_id, label=ABCPropertyGraph.CLASS_Component, props=props)
         self.add_link(node_a=parent_node_id, rel=ABCPropertyGraph.REL_HAS, node_b=component.node_id)
         nsi = component.network_service_info
@@ -1279,6 +1281,9 @@ class ABCPropertyGraph(ABCPropertyGraphConstants):
                 graph_id=self.graph_id, node_id=parent_node_id)
 
         props = self.network_service_sliver_to_graph_properties_dict(network_service)
+        if parent_node_id is not None:
+            # the parent must exist before anything is written
+            self.get_node_properties(node_id=parent_node_id)
         self.add_node(node_id=network_service.node_id, label=ABCPropertyGraph.CLASS_NetworkService, props=props)
         if parent_node_id is not None:
             self.add_link(node_a=parent_node_id, rel=ABCPropertyGraph.REL_HAS, node_b=network_service.node_id)
@@ -1302,6 +1307,9 @@ class ABCPropertyGraph(ABCPropertyGraphConstants):
         assert interface.node_id is not None
 
         props = self.interface_sliver_to_graph_properties_dict(interface)
+        if parent_node_id is not None:
+            # the parent must exist before anything is written
+            self.get_node_properties(node_id=parent_node_id)
         self.add_node(node_id=interface.node_id, label=ABCPropertyGraph.CLASS_ConnectionPoint, props=props)
         if parent_node_id is not None:
             self.add_link(node_a=parent_node_id, rel=ABCPropertyGraph.REL_CONNECTS, node_b=interface.node_id)
